@@ -142,13 +142,36 @@ impl Monitor for C06 {
         rep.inc(&format!("lit:{}", pk.lit_name(cfg.lt)));
         let reference = refread::read(cfg, bytes);
         // both scanner paths judge each number: one-shot (SWAR) and 1-byte/chunk-1 (byte-wise)
-        for (policy, ctor) in [
-            (Policy::OneShot, Ctor::Chunk(16384)),
-            (Policy::Fixed(1), Ctor::Chunk(1)),
-        ] {
+        // AIGER: a third run goes through the section readers and moves on before sections are
+        // exhausted; what it hands out must still be what the text says at those places
+        let skip = if pk.is_aiger() { drive::random_skip(rng) } else { 0 };
+        for (run, (policy, ctor, skip)) in [
+            (Policy::OneShot, Ctor::Chunk(16384), 0),
+            (Policy::Fixed(1), Ctor::Chunk(1), 0),
+            (Policy::OneShot, Ctor::Chunk(16384), skip),
+        ]
+        .into_iter()
+        .enumerate()
+        {
+            if run == 2 && skip == 0 {
+                continue;
+            }
+            let mut cfg = cfg;
+            let filtered: Ref;
+            let mut reference = &reference;
+            if skip != 0 {
+                cfg.sections = true;
+                cfg.skip = skip;
+                rep.inc("aiger_section_skipping_parses");
+                filtered = match reference {
+                    Ref::Accept(items) => Ref::Accept(drive::filter_skipped(items, skip)),
+                    Ref::Reject(w) => Ref::Reject(w.clone()),
+                };
+                reference = &filtered;
+            }
             let tr = sut(|| drive::run_collect(cfg, ctor, Src::new(data.clone(), policy.clone(), 0)));
             rep.inc("parses");
-            match (&tr.outcome, &reference) {
+            match (&tr.outcome, reference) {
                 (Outcome::End, Ref::Accept(items)) => {
                     rep.inc("accepted_and_confirmed");
                     rep.count("items_compared", items.len() as u64);
